@@ -6,12 +6,13 @@ open EdbVerif EdbVerif.Driver EdbVerif.Gen.Card EdbVerif.MiniQL
 Line protocol for C06.
 
 * `comb <name> <args…>`                 — one generated combinator (see `comb`)
-* `infer <ptrs>|<fns>|<term>`           — `accepts`, `inferCard`, `inferMult` of a closed term
-* `eval <ptrs>|<fns>|<objs>|<data>|<term>` — `eval` on a database
+* `infer <ptrs>|<fns>|<descs>|<term>`           — `accepts`, `inferCard`, `inferMult` of a closed term
+* `eval <ptrs>|<fns>|<descs>|<objs>|<data>|<term>` — `eval` on a database
 
 `<ptrs>`  `srcTy,required,multi,link,exclusive;…`  (link = -1 for a property, else the target type)
 `<fns>`   `PARAMS,RET,isOp,kind,impl;…`  PARAMS/RET over S(ingleton) O(ptional) A(=SET OF), `-` for no parameter;
           kind e(q) a(nd) p(lus) o(ther)
+`<descs>` `t:d.d.d,…` transitive strict descendants per object type (`-` for none)
 `<objs>`  `id:ty,…`     `<data>`  `p:id=v v v;…` with values `i<int>` / `o<id>`
 `<term>`  prefix notation, see `parseQ`.
 Malformed input gives `bad-op`.
@@ -277,10 +278,26 @@ def parseFn (s : String) : Option FnDecl :=
 def parseSemi {α : Type} (f : String → Option α) (s : String) : Option (List α) :=
   if s == "-" || s == "" then some [] else allSome ((s.splitOn ";").map f)
 
-def parseSchema (ps fs : String) : Option Schema := do
+/-- `t:d.d.d,t:d` (types without descendants omitted), `-` for none -/
+def parseDescs (s : String) : Option (List (List Nat)) :=
+  if s == "-" || s == "" then some [] else do
+    let ents ← allSome ((s.splitOn ",").map fun e =>
+      match e.splitOn ":" with
+      | [t, ds] => do
+        let t ← t.toNat?
+        let ds ← allSome ((ds.splitOn ".").map String.toNat?)
+        some (t, ds)
+      | _ => none)
+    let n := ents.foldl (fun m e => max m (e.1 + 1)) 0
+    some ((List.range n).map fun t => match ents.find? (·.1 == t) with
+      | some e => e.2
+      | none => [])
+
+def parseSchema (ps fs ds : String) : Option Schema := do
   let ptrs ← parseSemi parsePtr ps
   let fns ← parseSemi parseFn fs
-  some { ptrs := ptrs, fns := fns }
+  let descs ← parseDescs ds
+  some { ptrs := ptrs, fns := fns, descs := descs }
 
 def parseVal (s : String) : Option Val :=
   if s.startsWith "i" then (s.drop 1).toString.toInt?.map Val.int
@@ -321,8 +338,8 @@ def handle (line : String) : String :=
   | "comb" :: ws => comb ws
   | "infer" :: rest =>
     match (" ".intercalate rest).splitOn "|" with
-    | [ps, fs, t] =>
-      match parseSchema (trim ps) (trim fs), parseTerm t with
+    | [ps, fs, ds, t] =>
+      match parseSchema (trim ps) (trim fs) (trim ds), parseTerm t with
       | some sch, some q =>
         if accepts sch [] q then
           let c := inferCard sch [] q
@@ -333,8 +350,8 @@ def handle (line : String) : String :=
     | _ => "bad-op"
   | "eval" :: rest =>
     match (" ".intercalate rest).splitOn "|" with
-    | [ps, fs, os, ds, t] =>
-      match parseSchema (trim ps) (trim fs), parseDB (trim os) (trim ds), parseTerm t with
+    | [ps, fs, hs, os, ds, t] =>
+      match parseSchema (trim ps) (trim fs) (trim hs), parseDB (trim os) (trim ds), parseTerm t with
       | some sch, some db, some q =>
         let vs := eval sch db [] q
         if vs.isEmpty then "-" else " ".intercalate (vs.map showVal)
